@@ -92,11 +92,11 @@ func init() {
 			}
 			return 8
 		},
-		Cases:       func(r *obs.Run) int { return r.Share(r.Pick(96, 1600)) },
+		Cases:       func(r *obs.Run) int { return r.Share(r.Pick(320, 1600)) },
 		Case:        c15Case,
-		MinDistinct: func(t string) int { return 40 },
+		MinDistinct: func(t string) int { return 150 },
 		Floors: func(string) map[string]int64 {
-			return map[string]int64{"pals_runs": 60, "hits_checked": 80, "planted_repeats": 80, "planted_reverse_strand": 20, "planted_recovered": 80, "self_comparison_runs": 10, "hits_with_errors": 20, "near_minimum_plants": 20}
+			return map[string]int64{"pals_runs": 200, "hits_checked": 250, "planted_repeats": 250, "planted_reverse_strand": 80, "planted_recovered": 250, "self_comparison_runs": 30, "hits_with_errors": 60, "near_minimum_plants": 60}
 		},
 		Assumptions: []string{"planted copies do not overlap each other or (in self comparison) their source", "index memory is capped at 48 MB so that Optimise chooses a word size the sandbox can index",
 			"'comfortably above the threshold' is taken as an error rate of at most min(1-minId-0.04, 0.03); 'most of the planted copy' as 80%"},
